@@ -231,7 +231,7 @@ pub fn c16_suite(ctx: &Ctx) -> ShardOut {
             // shrink: drop ops while the same rule fires (clone/fork points shift with removals)
             let mut cur = (ops.clone(), clone_at, fork_at);
             let mut i = 0;
-            let mut budget = 250;
+            let mut budget = crate::engine::SHRINK_BUDGET.load(std::sync::atomic::Ordering::Relaxed);
             while i < cur.0.len() && budget > 0 {
                 budget -= 1;
                 let mut o = cur.0.clone();
@@ -543,7 +543,7 @@ pub fn c17_suite(ctx: &Ctx) -> ShardOut {
         if let Some((rule, detail, step)) = run_c17(&cfg, kt, &ops, seeds, &swaps, &mut out.cov) {
             let mut cur = (ops.clone(), swaps.clone());
             let mut i = 0;
-            let mut budget = 200;
+            let mut budget = crate::engine::SHRINK_BUDGET.load(std::sync::atomic::Ordering::Relaxed);
             while i < cur.0.len() && budget > 0 {
                 budget -= 1;
                 let mut o = cur.0.clone();
@@ -706,7 +706,7 @@ pub fn c13_diff_suite(ctx: &Ctx, out: &mut ShardOut) {
             // shrink the inserted calls first, then the base ops
             let mut cur = (inter.clone(), idx.clone());
             let mut i = 0;
-            let mut budget = 300;
+            let mut budget = crate::engine::SHRINK_BUDGET.load(std::sync::atomic::Ordering::Relaxed);
             while i < cur.0.len() && budget > 0 {
                 budget -= 1;
                 let mut o = cur.0.clone();
